@@ -188,7 +188,7 @@ func c01Long(c *Ctx, n int) {
 	fix := func(s string) func(int) string { return func(int) string { return s } }
 	cases := []struct {
 		name, text string
-		count     func(q *influxql.Query) int
+		count      func(q *influxql.Query) int
 	}{
 		{"now()-terms", "SELECT x FROM m WHERE " + rep(func(i int) string { return fmt.Sprintf("now() > t%d", i) }, " AND "), func(q *influxql.Query) int { return countNodes01(q, "call") }},
 		{"argless-call-fields", "SELECT " + rep(fix("f()"), ", ") + " FROM m", func(q *influxql.Query) int { return len(q.Statements[0].(*influxql.SelectStatement).Fields) }},
